@@ -1,6 +1,7 @@
 package main
 
 import (
+	"strings"
 	"flag"
 	"fmt"
 	"os"
@@ -14,7 +15,44 @@ func gentest(args []string) {
 	seed := fl.Uint64("seed", 1, "")
 	show := fl.Int("show", 3, "")
 	dump := fl.Bool("dump", false, "")
+	grep := fl.String("grep", "", "count single-defect projects that contain every one of these |-separated substrings")
 	fl.Parse(args)
+	if *grep != "" {
+		hits := 0
+		outcomes := map[string]int{}
+		dir, _ := os.MkdirTemp("", "gentest")
+		defer os.RemoveAll(dir)
+		os.Chdir(dir)
+		for i := 0; i < *n; i++ {
+			p := genSingleDefect(NewRand(RunSeed(*seed, uint64(i))))
+			all := ""
+			for _, f := range p.Files {
+				all += string(f.Data)
+			}
+			ok := true
+			for _, w := range strings.Split(*grep, "|") {
+				if !strings.Contains(all, w) {
+					ok = false
+				}
+			}
+			if ok {
+				if err := Materialise(p.Files); err != nil {
+					panic(err)
+				}
+				o := BuildPath(filepath.Join(projDir, p.Root))
+				outcomes[o.Class()+" "+trunc(o.Text(), 70)]++
+				hits++
+				if hits <= *show {
+					if len(all) > 400 {
+						all = all[len(all)-400:]
+					}
+					fmt.Println(all)
+				}
+			}
+		}
+		fmt.Printf("single-defect projects=%d matching=%d outcomes=%v\n", *n, hits, outcomes)
+		return
+	}
 	dir, _ := os.MkdirTemp("", "gentest")
 	defer os.RemoveAll(dir)
 	os.Chdir(dir)
